@@ -15,7 +15,7 @@ The structural MPD rules of the statement (required attributes, unique ids, lexi
 import z3
 from pyvc.vals import *          # noqa: F401,F403
 from pyvc.contract import Contract, Loop, Lemma, Group
-from contracts.xml_scan import interpolations, classify, content_protection_problems
+from contracts.xml_scan import interpolations, classify, content_protection_problems, custom_attribute_request_paths
 
 TAGS = 'dashlive/server/template_tags.py'
 CASES = [('amp', '&', '&amp;'), ('lt', '<', '&lt;'), ('gt', '>', '&gt;'), ('quot', '"', '&quot;'), ('plain', 'a', 'a'),
@@ -44,7 +44,9 @@ def xmlsafe(name, value, expected):
 XMLSAFE = [xmlsafe(*c) for c in CASES]
 
 
-KNOWN = {('templates/drm/custom_attributes.xml', 'ELEMENT-NAME:elt.tag')}        # known finding C05-custom-attribute-tag
+# the element name of a PlayReady custom attribute: supplied by callers of the PlayReady class only (see the lemma
+# custom_attributes_have_no_request_path), hence neither a stored nor a requested string
+KNOWN = {('templates/drm/custom_attributes.xml', 'ELEMENT-NAME:elt.tag')}
 
 
 def template_lemmas():
@@ -70,6 +72,12 @@ def lemma_no_unclassified(w):
     return [], z3.BoolVal(not bad)
 
 
+def lemma_custom_attributes(w):
+    """the only element-name interpolation (custom_attributes.xml) is fed by API callers only: no handler, option or template
+    passes custom attributes - if one ever does, this lemma fails and the tag becomes an injection point to escape or validate"""
+    return [], z3.BoolVal(not custom_attribute_request_paths(w.get('__repo__', '/repo')))
+
+
 def lemma_content_protection(w):
     """C11 (template level): ContentProtection fragments take default_KID, pssh and pro from the adaptation set's default
     key id through the same factories the init segment uses, each under the test of its location"""
@@ -80,7 +88,8 @@ GROUP = Group(
     name='xml', world=lambda: {'__bases__': {}, 'is_markup': lambda x: isinstance(x, MarkupStr)},
     contracts=XMLSAFE,
     lemmas=template_lemmas() + [Lemma('templates.every_interpolation_is_escaped_or_safe', ['C05'], lemma_no_unclassified),
-                                 Lemma('templates.content_protection_uses_the_default_kid_factories', ['C11'], lemma_content_protection)],
+                                 Lemma('templates.content_protection_uses_the_default_kid_factories', ['C11'], lemma_content_protection),
+                                 Lemma('templates.custom_attributes_have_no_request_path', ['C05'], lemma_custom_attributes)],
     bounded=[{'name': 'c05_templates', 'props': ['C05'], 'cmd': ['/venv/bin/python', 'bounded/c05_templates.py', '{tier}', '--repo', '{repo}']}],
     assumptions=[
         'C05: str.replace(p, r) with a one-character pattern p maps every character c of the text to r if c == p and to c '
@@ -92,6 +101,5 @@ GROUP = Group(
         'safe alphabet (read from the code, not proved)',
     ],
     not_covered=['the structural MPD rules (required attributes per MPD@type, lexical validity of durations and dates, unique ids, '
-                 'non-empty AdaptationSets, URL template identifiers)', 'HTML templates', 'the element NAME taken from a custom '
-                 'attribute (known finding C05-custom-attribute-tag)'],
+                 'non-empty AdaptationSets, URL template identifiers)', 'HTML templates'],
 )
